@@ -525,7 +525,7 @@ pub fn c07_state<const N: usize>(recipe: &Recipe) -> Vec<Problem> {
 
 pub fn c07_check<const N: usize>(o: &Opts, rep: &mut Report) {
     rep.notes.push(format!("N={} {}", N, calib::<N>().note));
-    let mode = if o.thorough() && N <= 5 { KeyMode::Fine } else { KeyMode::Layout };
+    let mode = if o.thorough() && N <= 7 { KeyMode::Fine } else { KeyMode::Layout };
     // writes through every mutable accessor are transitions of the BFS itself
     let sp = {
         let mut cb = |_i: usize, st: &State, act: &Act, tr: &Trans| {
@@ -900,7 +900,7 @@ const C09_KINDS: [PKind; 8] = [PKind::Trace, PKind::Contents, PKind::Views, PKin
 
 pub fn c09_check<const N: usize>(o: &Opts, rep: &mut Report) {
     rep.notes.push(format!("N={} {}", N, calib::<N>().note));
-    let mode = if o.thorough() && N <= 4 { KeyMode::Fine } else { KeyMode::Layout };
+    let mode = if o.thorough() && N <= 6 { KeyMode::Fine } else { KeyMode::Layout };
     let sp = {
         let mut cb = |_i: usize, _st: &State, _a: &Act, _t: &Trans| {};
         explore::<N>(mode, &Limits::default(), &grow_alphabet, &mut cb)
